@@ -352,9 +352,63 @@ func runC13(cfg runCfg, res *Result) error {
 			return err
 		}
 	}
-	for i := 0; i < cmds+raws && len(res.Mismatches) < 6; i++ {
+	// systematic part: every template with integer positions x the extreme values, all positions at once and
+	// one position at a time (the random part below reaches a given template/value pair only by chance)
+	var sweep []c13Case
+	{
+		extremes := []string{"9223372036854775807", "-9223372036854775808", "9223372036854775806", "4611686018427387904", "4294967296", "-1"}
+		keys := []string{"ka", "kl", "kh", "ks", "kmissing", "k1"}
+		n := 0
+		for _, t := range c13Templates {
+			var pos []int
+			for i, a := range t {
+				if a == "I" || a == "#I" {
+					pos = append(pos, i)
+				}
+			}
+			if len(pos) == 0 {
+				continue
+			}
+			for _, x := range extremes {
+				for variant := 0; variant <= len(pos); variant++ {
+					if variant > 0 && len(pos) == 1 {
+						break
+					}
+					args := make([]string, len(t))
+					for i, a := range t {
+						switch a {
+						case "K":
+							args[i] = keys[n%len(keys)]
+						case "F":
+							args[i] = "0.01"
+						case "P":
+							args[i] = "*"
+						case "I", "#I":
+							v := "0"
+							if variant == 0 || pos[variant-1] == i {
+								v = x
+							}
+							if a == "#I" {
+								v = "#" + v
+							}
+							args[i] = v
+						default:
+							args[i] = a
+						}
+					}
+					n++
+					sweep = append(sweep, c13Case{Kind: "cmd", Args: hexs(args...)})
+				}
+			}
+		}
+		res.Extra["extreme_value_sweep"] = len(sweep)
+	}
+	for i := -len(sweep); i < cmds+raws && len(res.Mismatches) < 6; i++ {
 		var cs c13Case
-		if i < cmds && i%2 == 1 {
+		if i < 0 {
+			cs = sweep[len(sweep)+i]
+			res.CmdHist[strings.ToLower(string(unhex(cs.Args[0])))]++
+		} else if i < cmds && i%2 == 1 {
 			// integer-taking commands, filled from the table of extreme values
 			t := c13Templates[g.Intn(len(c13Templates))]
 			args := c13Fill(g, t)
@@ -386,7 +440,7 @@ func runC13(cfg runCfg, res *Result) error {
 		}
 		res.Histories++
 		res.Steps++
-		if len(res.Samples) < 4 && i%300 == 0 {
+		if len(res.Samples) < 4 && i >= 0 && i%300 == 0 {
 			res.Samples = append(res.Samples, fmt.Sprintf("%s %q %q", cs.Kind, unhexs(cs.Args), unhex(cs.Raw)))
 		}
 		why, err := r.run(cs)
